@@ -270,6 +270,12 @@ def build_model(name, extract_v, driver_ml, timeout=900):
 # ------------------------------------------------------------------------------------------
 # PRNG (splitmix64): every random choice of a run derives from VERIF_SEED
 
+def dhash(t):
+    """deterministic replacement for hash() of a tuple (Python randomises string hashes per process)"""
+    import zlib
+    return zlib.crc32(repr(t).encode())
+
+
 class Rng:
     def __init__(self, seed):
         self.s = (seed * 0x9E3779B97F4A7C15 + 0x1234567) & 0xFFFFFFFFFFFFFFFF
